@@ -262,14 +262,30 @@ def d2_reset(ctx, idx, st):
         resets = [c for c in lib.calls_named(rp.node, 'reset_storage')
                   if isinstance(c.func, ast.Attribute) and isinstance(c.func.value, ast.Name) and c.func.value.id == rp.params[0]]
         starts = lib.cfg_nodes_for(cfg, parse_calls[0])
-        if not resets:
+        # a `with` over a manager whose exit resets the storage: __exit__ runs on every exit of the block
+        manager_nodes = []
+        for w in lib.stmts_in(rp.node, ast.With):
+            for item in w.items:
+                why = _manager_resets(idx, rp, item.context_expr)
+                if isinstance(why, tuple):
+                    kind, text, ex = why
+                    if kind == 'partial':
+                        r.violation('raw_parse: `with` manager', '%s: on the other exits of the with-block the names recorded by the parse stay '
+                                    'in the scratch sets and are reported for the next formula' % text, ex.loc)
+                    else:
+                        r.violation('raw_parse: `with` manager', '%s: raw_parse then falls off its end and returns None for a malformed '
+                                    'formula instead of raising' % text, ex.loc)
+                elif why:
+                    manager_nodes.extend(n for n in cfg.nodes_of(w) if n.kind == 'with_exit')
+                    r.note('raw_parse: `with %s`: %s' % (short(item.context_expr), why))
+        if not resets and not manager_nodes:
             # a reset moved into another method of the parser counts as the reset
             for c in [n for n in walk_own(rp.node) if isinstance(n, ast.Call) and isinstance(n.func, ast.Attribute)
                       and isinstance(n.func.value, ast.Name) and n.func.value.id == rp.params[0]]:
                 tgt = idx.lookup(rp.cls, c.func.attr) if rp.cls is not None else None
                 if tgt is not None and lib.calls_named(tgt.node, 'reset_storage'):
                     resets.append(c)
-        if not resets:
+        if not resets and not manager_nodes:
             other = [n for n in walk_own(rp.node) if isinstance(n, ast.Call) and nf.callee_name(n) not in (
                 'parseString', 'parse_string', 'validate', 'MathExpression')]
             if other or idx.unreviewed:
@@ -279,7 +295,7 @@ def d2_reset(ctx, idx, st):
             r.violation('raw_parse: reset_storage', 'raw_parse no longer calls reset_storage: the names recorded by one parse '
                         '(successful or not) stay in the scratch sets and are reported for the next formula', rp.loc)
             return
-        through = [n for c in resets for n in lib.cfg_nodes_for(cfg, c)]
+        through = [n for c in resets for n in lib.cfg_nodes_for(cfg, c)] + manager_nodes
         for exits, what in (('raise', 'an exceptional'), ('return', 'a normal')):
             ok = cfg.must_pass(starts, through, exits=exits, after=True)
             detail = ''
@@ -289,11 +305,48 @@ def d2_reset(ctx, idx, st):
             r.check(ok, 'raw_parse: reset on %s exit' % what.split()[-1], 'every path from parseString to %s exit passes reset_storage' % what,
                     '%s exit of raw_parse is reachable from the parseString call without passing reset_storage%s: names recorded '
                     'by a %s parse are reported for the next formula parsed' % (what, detail, 'failed' if exits == 'raise' else 'previous'),
-                    lib.loc(rp, resets[0]))
+                    lib.loc(rp, resets[0]) if resets else rp.loc)
         for t in lib.stmts_in(rp.node, ast.Try):
             for s in t.finalbody:
                 if any(isinstance(n, (ast.Return, ast.Break, ast.Continue)) for n in ast.walk(s)):
                     r.violation('raw_parse: finally', 'a return inside finally swallows parse errors', lib.loc(rp, s))
+
+
+def _manager_resets(idx, rp, ce):
+    """Does leaving `with <ce>:` always call reset_storage (and never swallow the exception)?  Recognised managers: a class
+    whose __exit__ passes a `.reset_storage()` call on every path and returns nothing truthy; a @contextmanager generator
+    whose yield sits in a try with reset_storage in the finally.  Returns a description or None."""
+    if not isinstance(ce, ast.Call):
+        return None
+    targets, how = idx.resolve_call(rp, ce)
+    for t in targets:
+        if isinstance(t, tuple) and t[0] == 'class':
+            ex = idx.lookup(t[1], '__exit__')
+            if ex is None:
+                continue
+            calls = lib.calls_named(ex.node, 'reset_storage')
+            if not calls:
+                continue
+            ecfg = cfg_of(ex.node)
+            through = [n for c in calls for n in lib.cfg_nodes_for(ecfg, c)]
+            if not ecfg.must_pass([ecfg.entry], through, exits='all', after=True):
+                return ('partial', '%s.__exit__ calls reset_storage only on some of its paths' % t[1].name, ex)
+            swallow = [x for x in lib.returns_of(ex.node) if x.value is not None and not (
+                isinstance(x.value, ast.Constant) and not x.value.value)]
+            if swallow:
+                return ('swallow', '%s.__exit__ may return a true value (`%s`), which suppresses the exception of a failed '
+                        'parse' % (t[1].name, short(swallow[0])), ex)
+            # the manager must be given this parser
+            if not any(isinstance(a, ast.Name) and a.id == rp.params[0] for a in list(ce.args) + [k.value for k in ce.keywords]):
+                continue
+            return '%s.__exit__ always calls reset_storage and does not swallow exceptions' % t[1].name
+        if not isinstance(t, tuple) and any('contextmanager' in d for d in t.decorators):
+            for tr in lib.stmts_in(t.node, ast.Try):
+                has_yield = any(isinstance(n, ast.Yield) for s_ in tr.body for n in ast.walk(s_))
+                resets = any(isinstance(n, ast.Call) and nf.callee_name(n) == 'reset_storage' for s_ in tr.finalbody for n in ast.walk(s_))
+                if has_yield and resets and not tr.handlers:
+                    return 'generator manager %s resets in the finally around its yield' % t.name
+    return None
 
 
 # ----------------------------------------------------------------------------- D3
@@ -1213,6 +1266,17 @@ BENIGN = [
     Benign('most-recent-formula-memo-written-after-the-parse', EXPR, "    return PARSER.parse(formula)",
            "    if formula == _latest['formula']:\n        return _latest['parsed']\n    parsed = PARSER.parse(formula)\n"
            "    _latest['formula'] = formula\n    _latest['parsed'] = parsed\n    return parsed\n\n_latest = {'formula': None, 'parsed': None}"),
+    Benign('reset-by-a-with-manager-class', EXPR,
+           "    def raw_parse(self, expression):\n        \"\"\"\n        Try to parse a string and cache the result. ALWAYS clears storage.\n        \"\"\"\n"
+           "        try:\n            BracketValidator.validate(expression)\n            tree = self.grammar.parseString(expression)[0]\n"
+           "            parsed = MathExpression(expression,\n                                    tree,\n                                    self.variables_used,\n"
+           "                                    self.functions_used,\n                                    self.suffixes_used)\n" + _FINALLY,
+           "    class _Scratch(object):\n        def __init__(self, parser):\n            self.parser = parser\n\n"
+           "        def __enter__(self):\n            return self.parser\n\n"
+           "        def __exit__(self, exc_type, exc_value, traceback):\n            self.parser.reset_storage()\n            return False\n\n"
+           "    def raw_parse(self, expression):\n        with MathParser._Scratch(self):\n            BracketValidator.validate(expression)\n"
+           "            tree = self.grammar.parseString(expression)[0]\n"
+           "            return MathExpression(expression, tree, self.variables_used, self.functions_used, self.suffixes_used)"),
     Benign('cache-store-removed', EXPR, "        self.cache[cache_key] = parsed\n        return parsed", "        return parsed"),
     Benign('grammar-signs-by-tuple-assignment', EXPR, "        minus = Literal(\"-\") | emdash\n", "        minus, dash = (Literal(\"-\") | emdash, emdash)\n"),
 ]
